@@ -321,6 +321,10 @@ def refplot_from_desc(desc):
     nd = d["ndims"]
     nlev = len(d["levels"])
     dx = [[d["dx0"][k] / 2 ** lv for k in range(nd)] for lv in range(nlev)]
+    if d.get("dx_digits"):
+        # cell sizes as a code writes them that prints fewer than 17 significant digits: each level's value is correctly rounded to
+        # `dx_digits` digits, so the quotient of two levels is no longer exactly 2 (0.333333333333 / 0.166666666667 = 1.99999999999)
+        dx = [[float("%.*g" % (int(d["dx_digits"]), v)) for v in row] for row in dx]
     domain = [[d["domain"][k] * 2 ** lv for k in range(nd)] for lv in range(nlev)]
     geo_lo = list(d["origin"])
     geo_hi = [d["origin"][k] + d["dx0"][k] * d["domain"][k] for k in range(nd)]
